@@ -38,6 +38,12 @@ def run(tier, seed):
              'without window support, non-positive activity and an empty basename before anything is generated')
     dr = prog.fn('bxdecay0::driver::run')
     F = cppflow.Flow(dr, keep_io=True)
+    if not [n for n in F.nodes(kind='call') if n.stmt[1] == 'decay0_generator::shoot']:
+        # the event loop may have been moved into a private helper of the driver (or a file-local function): expand it
+        try:
+            F = cppflow.Flow(dr, keep_io=True, helpers=cppflow.private_helpers(prog, dr))
+        except AnalysisBroken:
+            F = cppflow.Flow(dr, keep_io=True)
     init = [n for n in F.nodes(kind='call') if n.stmt[1] == 'decay0_generator::initialize']
     shoot = [n for n in F.nodes(kind='call') if n.stmt[1] == 'decay0_generator::shoot']
     store = [n for n in F.nodes(kind='call') if n.stmt[1] == 'event::store']
